@@ -57,4 +57,34 @@ example (n c : CertKey) : KM.Gen.C04.KeyState.knows_key (variantOf (.rollNew n c
     (currentKey 0 (.rollNew n c)) (newKey 0 (.rollNew n c)) (oldKey 0 (.rollNew n c)) n.id = true := by
   simp [KM.Gen.C04.KeyState.knows_key, variantOf, newKey]
 
+/-! ### `KeyState::append_keyroll_activate`
+
+`roll_completes_partial`, `single_signer` and the activation lemmas (Props/C04.lean) run on `KeyState.keyrollActivate`:
+the activation is REFUSED while the new or the current key has an open certificate request (the round-5 seeded change
+dropped that precondition: under the trust anchor the old key kept its open request, the issuance replaced the queued
+revocation at the proxy and the class stayed in the old-key phase for ever), otherwise exactly one `KeyRollActivated`
+with the revocation request for the CURRENT key. -/
+
+/-- What the model's verdict looks like as the result of the Rust function (the event list it appended to). -/
+def activateAs {ε Ev : Type} (errPending : ε) (act : Ev) (events : List Ev) : Except KeyErr (List KeyEv) → Except ε (List Ev)
+  | .ok [] => .ok events
+  | .ok _ => .ok (events ++ [act])
+  | .error _ => .error errPending
+
+/-- `KeyState::append_keyroll_activate` as translated from the source = the model, in the stage it is called in
+(`ResourceClass::append_keyroll_activate` calls it for a class that has a new key; elsewhere it is `KeyUseNoNewKey`). -/
+theorem gen_append_keyroll_activate_eq_model {Q ε Ev : Type} (n c : CertKey) (mkReq : KeyId → Q) (act : Q → Ev)
+    (errPending errNoNew : ε) (events : List Ev) :
+    KM.Gen.C04.KeyState.append_keyroll_activate (variantOf (.rollNew n c)) n.req c.req c.id (fun k => .ok (mkReq k)) act
+      errPending errNoNew events
+      = activateAs errPending (act (mkReq c.id)) events (KeyState.rollNew n c).keyrollActivate := by
+  simp only [KM.Gen.C04.KeyState.append_keyroll_activate, variantOf, KeyState.keyrollActivate]
+  cases n.req <;> cases c.req <;> rfl
+
+/-- In every other stage the function refuses (`KeyUseNoNewKey`). -/
+theorem gen_append_keyroll_activate_other {K Q ε Ev : Type} (ks : KeyState) (h : ∀ n c, ks ≠ .rollNew n c) (a b : Bool) (k : K)
+    (rk : K → Except ε Q) (act : Q → Ev) (e1 e2 : ε) (events : List Ev) :
+    KM.Gen.C04.KeyState.append_keyroll_activate (variantOf ks) a b k rk act e1 e2 events = .error e2 := by
+  cases ks <;> first | rfl | exact absurd rfl (h _ _)
+
 end KM.Props.C04Src
